@@ -90,6 +90,9 @@ CHECKS = {
  'C25': (['asan'], 'history monitor: CSR matrices built from COO triples and updated by set()/operations, with a dense model kept in lock-step; after every step the raw (p, j, x) arrays pass an independent canonical-format check, is_canonical() agrees, and the whole grid equals the model; ASan on the index arithmetic',
          'Histories of construction (duplicates summed), 0-25 set() updates and binary/unary operations (canonical binop add/sub/mul, elementwise product, transpose, conjugate, row/column scaling, diagonal, jacobian).',
          'CSR member functions that are unimplemented stubs (add_matrix, mul_matrix, scalar ops, submatrix) are recorded as declined.', 'DESIGN.md 3/C25'),
+ 'C27': (['asan'], 'event-log monitor vs exact pointwise reference: every set expression is probed by contains() at all critical values, the midpoints between them, points beyond the extremes, two irrationals and a non-real point, each compared with the boolean combination of operand memberships; sup/inf/boundary/interior/closure compared with their definitions on the exact region description of the set the library built; violating expressions are confirmed in a fresh process and shrunk; ASan stack-overflow / hang detection on the mutual recursion of the set algebra',
+         'Expressions of depth <= 3 over intervals (all open/closed/infinite combinations on a rational grid), finite sets, the six number sets, EmptySet and UniversalSet under n-ary and member union/intersection and complement; membership is piecewise constant between critical values so each case is decided exactly.',
+         'An unevaluated Contains is no answer and not judged; set functions are judged only when the library result is a real set the reference models.', 'DESIGN.md 3/C27'),
 }
 
 def main():
